@@ -121,6 +121,14 @@ PROPS = {
         "level": "exploration",
         "claim": "two parts, labelled separately. PROVED (Verus, unbounded over declarations): the discriminant evaluation of parse_values — the statement of the loop body and the two initialisations, sliced verbatim from /repo/src/parser/values.rs — associates with each variant exactly the value the language rule assigns (explicit literal, optionally negated; previous + 1; 0 first) and reaches no diagnostic (`emit_error!` has precondition false) for every declaration whose discriminants are implicit or (negated) integer literals within i64 and pairwise different (g_disc_init, g_disc_step, lemma_disc_sequence; loop threading checked structurally). BOUNDED, never reported as proved: a designed + seeded corpus of declarations in the documented domain (12 reprs x 8 literal spellings, implicit/explicit mixes, repr and i64 limits, foreign attributes, 300-400 variants; thorough: 65534) must be accepted by macro and rustc and every derived item must agree with `variant as repr` as assigned by rustc",
         "layers": ["G", "C11", "IR"],
+        "assumptions": [
+            "layer G second file: shim types stand for syn::{Expr, ExprUnary, ExprLit, Lit, LitInt, UnOp, Variant}, proc_macro2::{Ident, Span}, Error, FeatureSorted (same names, variants, fields and nesting as far as the sliced statements touch them; all other syn variants collapsed into `Other`)",
+            "assumed contract (external_body) of syn::LitInt::base10_parse::<N>: succeeds iff the literal's mathematical value fits N and returns it; literal spelling (bases, `_`, suffixes) is decided on the bounded corpus only",
+            "`emit_error!` is modelled as a call with precondition false (no diagnostic is reachable inside the domain); its continue-after-error behaviour is therefore never exercised by the proof",
+            "the `for mut v in data.variants` loop itself (syn Punctuated iteration) is not verified: that the sliced statement runs once per variant in declaration order with `last`/`values` threaded is a structural obligation on the token text (G/disc_threading)",
+            "vstd specifications of HashMap::{new, insert, is_empty}, Option::{take, map, and_then, is_some}, Result::ok, i64::try_from(i128), i64::wrapping_add",
+            "attribute walking, sorted(name), the unit-field test, repr lookup, the 65534 limit and rustc's acceptance of the generated code are NOT under contract (bounded corpus)",
+        ],
         "explanation": "The arithmetic of the discriminant evaluation is within the verifier's reach once the syn types it pattern-matches on are replaced by shim types of the same shape; that part is discharged for all declarations. Attribute walking, literal spelling (syn's base10_digits, assumed by the contract of LitInt::base10_parse), repr lookup, the size limit and the acceptance of the generated code by rustc stay outside: for those the per-declaration contract check is the bounded stand-in. The level stays `exploration` because the property as a whole (accepted AND compiles) is decided only over the corpus.",
         "technique": "contract-based deductive verification (Verus) of the discriminant evaluation sliced verbatim from parse_values + bounded per-declaration contract check of the real expansion (rustc + native oracle) for everything else",
         "note": "bounded exploration over declarations for acceptance/compilation; proved for the discriminant arithmetic; trusted: shim types standing for syn::{Expr, ExprUnary, ExprLit, Lit, LitInt, UnOp, Variant} (same names and nesting; unnamed variants collapsed into `Other`), assumed contract of LitInt::base10_parse (parse succeeds iff the literal's value fits the target type), vstd's HashMap/Option/Result/TryFrom specifications, that the `for` loop runs the statement once per variant in declaration order (structural check), rustc's `as` for the oracle side, the corpus generator's language rule for implicit discriminants",
